@@ -18,7 +18,8 @@ From AV Require Import Base.Bytes Base.Outcome Hash.HashModel Spec.SpecOps Spec.
   Tree.SpecWF Tree.SpecWFReal Tree.RangeProofsCalc Tree.RangeProofsOps Tree.RangeProofsLoader Tree.RangeProofsReal Tree.RangeProofsParser Tree.RangeProofsNamed Tree.CopyProofsDefs Tree.RangeProofsInv Tree.Project Tree.RangeProofsProject Tree.RangeProofsReload
   Tree.CompatTyped Tree.CompatHist1 Tree.CompatHist4 Tree.RangeProofsAttach Tree.RangeProofsAttachCopy
   Tree.Serialize Tree.Files Tree.ProjectCanon Tree.RangeProofsReloadFile Tree.RangeProofsCanon Tree.RangeProofsMoveSame
-  Tree.OrdHist Tree.OrdHistReal Tree.OrdFrame Tree.WorldCheck Tree.RangeProofsCheck Tree.RangeProofsApi Tree.RangeProofsApiReal Tree.RangeProofsShortFirst Tree.RangeProofsUnique.
+  Tree.OrdHist Tree.OrdHistReal Tree.OrdFrame Tree.WorldCheck Tree.RangeProofsCheck Tree.RangeProofsApi Tree.RangeProofsApiReal Tree.RangeProofsShortFirst Tree.RangeProofsUnique
+  Tree.Listing Tree.RangeProofsListing Tree.ListingReal.
 From AV Require Hash.HashRealElement Hash.HashRealAttr Hash.HashRealEnum.
 From AV Require Xml.Serializer Xml.StrictValidDef Xml.RoundTripFile.
 From AV Require Xml.Parser.
@@ -679,3 +680,53 @@ Theorem C07_unique_name_valid_when_short :
       N.of_nat (List.length orig) + 1 + N.of_nat (List.length (to_dec k)) <= maxlen ->
       check_value check_fn (DString name) (CPattern fn (Some maxlen)) v = check_fn fn name.
 Proof. exact unique_name_valid_when_short. Qed.
+
+(* ------------------------------------------------------------------ the property text without side hypotheses on the new element's type *)
+(* [F] on the regenerated tables, for EVERY datatype, every listed sub-element entry and every AUTOSAR version in which the
+   entry exists: the name resolves in that version and the type found is identifiable there exactly when the listing
+   (sub_element_spec_iter's name_version_mask, which list_valid_sub_elements reports as is_named) says so.
+   4 x sharded evaluation, 5080 datatypes x 21 versions. *)
+Theorem C07_named_agree_real : forall ty : N, named_agree_b RT ty = true.
+Proof. exact named_agree_real. Qed.
+
+(* [U] under that table fact (for the parent's datatype) and for a file version among the 21 AUTOSAR versions: what
+   list_valid_sub_elements reports for a name — (is_named, is_allowed) — is exactly what the un-named creation calls do:
+   reported not named: allowed <-> create_sub_element succeeds, and create_sub_element_at p succeeds <-> p in the reported
+   range; reported named: the un-named calls never succeed (create_named_sub_element[_at]: C07_create_named_iff). *)
+Theorem C07_listing_exact :
+  forall (T : tables) (LATEST : N) (h : id) (n : node) (v : N) (w : world) (r : list valid_info) (w' : world) (vi : valid_info),
+  named_agree_b T (snd (n_type n)) = true -> In v VERSIONS ->
+  w_nodes w h = Some n -> w_nodes w (w_next w) = None -> min_version LATEST h w = Val (OK v, w) ->
+  list_valid_sub_elements T LATEST h w = Val (OK r, w') -> In vi r ->
+  (vi_named vi = false ->
+     (vi_allowed vi = true <-> exists c w2, e_create_sub_element T LATEST h (vi_name vi) w = Val (OK c, w2)) /\
+     (forall lo hi w1, calc_element_insert_range T n (vi_name vi) v w = Val (OK (lo, hi), w1) ->
+        forall pos, (exists c w2, e_create_sub_element_at T LATEST h (vi_name vi) pos w = Val (OK c, w2)) <-> lo <= pos <= hi)) /\
+  (vi_named vi = true ->
+     forall pos c w2, e_create_sub_element_at T LATEST h (vi_name vi) pos w <> Val (OK c, w2)).
+Proof. exact listing_exact. Qed.
+
+(* [F+U] the same on the real tables with no table hypothesis left; the first clause says what is_named means: the
+   named-ness IN THE FILE VERSION of the type the name resolves to (not "in any version": C07_version_dependent_named_real) *)
+Theorem C07_listing_exact_real :
+  forall (h : id) (n : node) (v : N) (w : world) (r : list valid_info) (w' : world) (vi : valid_info),
+  In v VERSIONS ->
+  w_nodes w h = Some n -> w_nodes w (w_next w) = None -> min_version REAL_LATEST h w = Val (OK v, w) ->
+  list_valid_sub_elements RT REAL_LATEST h w = Val (OK r, w') -> In vi r ->
+  (exists et ix, find_sub_element RT (n_type n) (vi_name vi) v = Val (Some (et, ix)) /\
+                 is_named_in_version RT et v = Val (vi_named vi)) /\
+  (vi_named vi = false ->
+     (vi_allowed vi = true <-> exists c w2, e_create_sub_element RT REAL_LATEST h (vi_name vi) w = Val (OK c, w2)) /\
+     (forall lo hi w1, calc_element_insert_range RT n (vi_name vi) v w = Val (OK (lo, hi), w1) ->
+        forall pos, (exists c w2, e_create_sub_element_at RT REAL_LATEST h (vi_name vi) pos w = Val (OK c, w2)) <-> lo <= pos <= hi)) /\
+  (vi_named vi = true ->
+     forall pos c w2, e_create_sub_element_at RT REAL_LATEST h (vi_name vi) pos w <> Val (OK c, w2)).
+Proof. exact listing_exact_real. Qed.
+
+(* [F] the version dependence is real: CAN-TP-ADDRESS has one type in all versions, without SHORT-NAME in 4.0.1, with one later *)
+Theorem C07_version_dependent_named_real :
+  find_sub_element RT (0, 516) 2866 1 = Val (Some ((766, 511), [0])) /\
+  find_sub_element RT (0, 516) 2866 2 = Val (Some ((766, 511), [0])) /\
+  is_named_in_version RT (766, 511) 1 = Val false /\ is_named_in_version RT (766, 511) 2 = Val true /\
+  is_named RT (766, 511) = Val true.
+Proof. exact version_dependent_named_real. Qed.
